@@ -176,6 +176,7 @@ def enc_duration_full(d):
     r["inh"] = sm(d.in_hours(), 24)
     r["ind"] = sm(d.in_days())
     r["inw"] = sm(d.in_weeks())
+    r["atd"] = td3(d.as_timedelta())
     return r
 
 
